@@ -883,3 +883,10 @@ Proof.
   specialize (H (mkNEnv 0 (-1)%Z false) (mkRnClient true false false) false (mkRnLine false None) None eq_refl eq_refl).
   vm_compute in H. inversion H as [| m l Hm Hl]; subst. discriminate Hm.
 Qed.
+
+(* resetToStandby starts with `if !r.relayStatus.CompareAndSwap(status, kRelayStandBy) { return }`:
+   rt_reset's "only from the expected state" is that guard (the translator reports the shape
+   instead of refusing to translate, so that a reset from any state breaks THIS lemma and the
+   models stay executable for the search engines of C13) *)
+Lemma reset_guard_src_ok : relayneg_reset_guard_is_cas = true.
+Proof. reflexivity. Qed.
